@@ -1,0 +1,40 @@
+"""Verification hooks.
+
+Inert unless the environment variable ``GOTRANX_VERIF`` is set: every function
+returns immediately.  With the guard on, :func:`emit` appends one JSON object per
+event to the file named by ``GOTRANX_VERIF_TRACE`` (one writer per process, a
+per-process sequence number orders the events).
+"""
+
+from __future__ import annotations
+
+import itertools
+import json
+import os
+from graphlib import TopologicalSorter
+
+_ON = bool(os.environ.get("GOTRANX_VERIF"))
+_seq = itertools.count(1)
+
+
+def enabled() -> bool:
+    return _ON
+
+
+def emit(ev: str, **fields) -> None:
+    if not _ON:
+        return
+    path = os.environ.get("GOTRANX_VERIF_TRACE")
+    if not path:
+        return
+    rec = {"seq": next(_seq), "pid": os.getpid(), "ev": ev, **fields}
+    with open(path, "a") as f:
+        f.write(json.dumps(rec, default=str) + "\n")
+
+
+class LoggingSorter(TopologicalSorter):
+    """A TopologicalSorter that logs every ``add`` with the predecessors in the order received."""
+
+    def add(self, node, *predecessors):
+        emit("SortAdd", name=node, iter=list(predecessors))
+        super().add(node, *predecessors)
